@@ -1251,6 +1251,15 @@ def loop_must_calls(crate, b):
         for c in b.calls:
             if c.bb not in body or b.blocks[c.bb]["cleanup"] or not c.callee or c.bb == head:
                 continue
+            # an adaptor call that every iteration makes, with a closure that always calls X (`acc.into_iter().flat_map(|a| X(..))`):
+            # the inner loop in adaptor form — X is owed zero or more times per outer iteration
+            if c.callee.target not in crate.bodies and c.callee.name in ("flat_map", "map", "for_each", "filter_map", "extend", "fold", "try_for_each", "try_fold"):
+                if b.must_pass(some_e, {head}, {c.bb}):
+                    for a in c.args:
+                        for x in role_walk(b.role_of_operand(a)):
+                            if isinstance(x, tuple) and x[0] == "agg" and isinstance(x[1], str) and x[1] in crate.bodies and crate.bodies[x[1]].kind == "Closure":
+                                for nm_, t_ in _direct_must_calls(crate, crate.bodies[x[1]]):
+                                    names.add(("*" + nm_, t_))
             tgt = crate.bodies.get(c.callee.target)
             if tgt is not None:
                 if tgt.kind == "Closure" or tgt.auto_derived or not (tgt.file or "").startswith("src/") or not tgt.name:
